@@ -282,13 +282,16 @@ func runWorker(p Prop, seed uint64, tier string, from, stride, count int, deadli
 	kept := map[string]int{}
 	hashes := map[uint64]struct{}{}
 	states := map[uint64]struct{}{}
-	progress := os.Getenv("VERIF_PROGRESS_FILE")
+	var progress *os.File
+	if pf := os.Getenv("VERIF_PROGRESS_FILE"); pf != "" {
+		progress, _ = os.OpenFile(pf, os.O_CREATE|os.O_WRONLY, 0o644)
+	}
 	for i := from; i < count; i += stride {
 		if deadlineMs > 0 && time.Now().UnixMilli() > deadlineMs {
 			break
 		}
-		if progress != "" {
-			os.WriteFile(progress, []byte(strconv.Itoa(i)), 0o644)
+		if progress != nil {
+			progress.WriteAt([]byte(fmt.Sprintf("%-20d", i)), 0)
 		}
 		rs := sim.RunSeed(seed, uint64(i))
 		ch := sim.NewChoices(rs)
@@ -451,7 +454,11 @@ func batch(p Prop, seed uint64, tier string, count int, budget float64, workers 
 	errs := make([]error, workers)
 	stderrs := make([]string, workers)
 	doneCh := make(chan int, workers)
-	progDir, _ := os.MkdirTemp("", "verif-progress-")
+	progBase := ""
+	if st, err := os.Stat("/dev/shm"); err == nil && st.IsDir() {
+		progBase = "/dev/shm"
+	}
+	progDir, _ := os.MkdirTemp(progBase, "verif-progress-")
 	defer os.RemoveAll(progDir)
 	for w := 0; w < workers; w++ {
 		w := w
